@@ -43,7 +43,8 @@ def required_cells(tier):
     cells = ['law:reflexive', 'law:exact', 'law:monotone:ELLIPSIS', 'law:monotone:NORMALIZE_WHITESPACE',
              'law:monotone:IGNORE_WHITESPACE', 'law:monotone:NORMALIZE_REPR', 'law:monotone:ACCEPT_BLANKLINE',
              'law:nonblank', 'law:trailing-whitespace', 'ref:match', 'ref:nomatch', 'e2e:match', 'e2e:nomatch', 'ellipsis-structured',
-             'rewrite:many-wildcards', 'law:flags-as-they-are-now']
+             'rewrite:many-wildcards', 'law:flags-as-they-are-now',
+             'e2e:printed-by-two-statements:match', 'e2e:printed-by-two-statements:nomatch']
     cells += ['ref:flags:%s' % ''.join(map(str, b)) for b in ALLBITS]
     return cells
 
@@ -372,10 +373,16 @@ def e2e_ok_want(want):
     return True
 
 
-def e2e_case(ctx, got, want, bits):
+def e2e_case(ctx, got, want, bits, split=False):
     from xdoctest import doctest_example
     flags = ', '.join(('+' if b else '-') + f for f, b in zip(FLAGS, bits))
     src = ['>>> # xdoctest: %s' % flags, '>>> print(%r)' % (got,)] + want.split('\n')
+    own = None
+    if split and '\n' in got:
+        # the same text printed by two statements, the first without a want: the want reaches back to its output, under
+        # the flags in force
+        head, own = got.split('\n', 1)
+        src = ['>>> # xdoctest: %s' % flags, '>>> print(%r)' % (head,), '>>> print(%r)' % (own,)] + want.split('\n')
     doc = '\n'.join(src)
     dt = doctest_example.DocTest(doc)
     summary = dt.run(on_error='return', verbose=0)
@@ -384,6 +391,10 @@ def e2e_case(ctx, got, want, bits):
         if p.want:
             parsed_want = p.want
     exp = models.output_matches(got + '\n', want, bits)
+    if own is not None:
+        # (the output of the final statement alone may satisfy the want as well)
+        exp = exp or (models.in_reference_domain(own + '\n', want) and models.output_matches(own + '\n', want, bits))
+        ctx.cell('e2e:printed-by-two-statements:' + ('match' if exp else 'nomatch'))
     obs = bool(summary['passed'])
     ctx.evaluation()
     ctx.cell('e2e:match' if exp else 'e2e:nomatch')
@@ -395,7 +406,8 @@ def e2e_case(ctx, got, want, bits):
     if obs != exp:
         et = summary['exc_info'][0].__name__ if summary['exc_info'] else None
         ctx.violation('e2e', 'doctest printing %r with want %r under %s: passed=%r (%s), reference says %r' % (
-            got, want, flags, obs, et, exp), {'kind': 'e2e', 'got': got, 'want': want, 'bits': list(bits)},
+            got, want, flags, obs, et, exp) + (' (printed by two statements)' if own is not None else ''),
+            {'kind': 'e2e', 'got': got, 'want': want, 'bits': list(bits), 'split': split},
             observed=obs, expected=exp)
 
 
@@ -474,7 +486,7 @@ def run_shard(ctx):
         else:
             continue
         bits = rng.choice(ALLBITS)
-        e2e_case(ctx, got, want, bits)
+        e2e_case(ctx, got, want, bits, split=idx % 2 == 1)
         ctx.nontrivial(('e', got, want, bits))
         if idx == 0:
             ctx.sample({'e2e_doctest': ['>>> # xdoctest: <flags %s>' % (bits,), '>>> print(%r)' % got] + want.split('\n')})
@@ -487,7 +499,7 @@ def run_shard(ctx):
 
 def replay(case, ctx):
     if case['kind'] == 'e2e':
-        e2e_case(ctx, case['got'], case['want'], tuple(case['bits']))
+        e2e_case(ctx, case['got'], case['want'], tuple(case['bits']), split=case.get('split', False))
         return
     judge = Judge(ctx)
     judge.reflexive(case['got'])
